@@ -57,11 +57,11 @@ def gen(rng):
 
 
 def run(rep):
-    res, hists = engcheck.run(rep, 'C05', PROP_FILE, gen, 80, 6000, ['all', 'some'], eng_oracle.oracle_c01, RULE, direct=10,
+    res, hists = engcheck.run(rep, 'C05', PROP_FILE, gen, 80, 6000, ['all', 'some'], eng_oracle.oracle_c05, RULE, direct=10,
                               extra_histories=table_histories)
     rep.cov['exhaustive'] = True
     rep.cov['exhaustive_part'] = 'decision table rows: %d' % sum(1 for h in hists if h[0].startswith('row'))
 
 
 def replay(path):
-    return engcheck.replay(path, eng_oracle.oracle_c01)
+    return engcheck.replay(path, eng_oracle.oracle_c05)
